@@ -160,7 +160,8 @@ impl World {
 
     /// From-scratch value of function f on node n.
     pub fn value_of(&self, f: F, n: u8, salt: u8) -> Result<u8, RefErr> {
-        let sol = self.solve()?;
+        let root = if f == F::Ev0 { self.root0.unwrap_or(0) } else { n };
+        let sol = self.solve_from(&[root])?;
         let mut r = Rf::new(self, &sol);
         let v = r.call_f(f, n, salt);
         match r.poison {
@@ -170,7 +171,7 @@ impl World {
     }
 
     pub fn mk_of(&self, n: u8) -> Result<RMk, RefErr> {
-        let sol = self.solve()?;
+        let sol = self.solve_from(&[n])?;
         let mut r = Rf::new(self, &sol);
         let m = r.mk(n);
         match r.poison {
@@ -182,6 +183,32 @@ impl World {
     /// Solve the recursive part of the program: least fixpoint for Fx/Fxj nodes (Kleene iteration
     /// from bottom), SCC analysis for Fb nodes.
     pub fn solve(&self) -> Result<Sol, RefErr> {
+        let all: Vec<u8> = (0..self.code.len() as u8).collect();
+        self.solve_from(&all)
+    }
+
+    /// Nodes statically reachable from `roots` (over-approximation of the dynamic call graph).
+    pub fn reachable(&self, roots: &[u8]) -> Vec<bool> {
+        let n = self.code.len();
+        let mut seen = vec![false; n];
+        let mut st: Vec<u8> = roots.to_vec();
+        while let Some(i) = st.pop() {
+            let i = if i == 255 { self.root0.unwrap_or(0) } else { i };
+            if (i as usize) >= n || seen[i as usize] {
+                continue;
+            }
+            seen[i as usize] = true;
+            let mut r = Vec::new();
+            self.code[i as usize].refs(&mut r);
+            st.extend(r);
+        }
+        seen
+    }
+
+    /// Like `solve`, restricted to the part of the program reachable from `roots`, so that a
+    /// non-converging cycle elsewhere does not affect unrelated nodes.
+    pub fn solve_from(&self, roots: &[u8]) -> Result<Sol, RefErr> {
+        let reach = self.reachable(roots);
         let n = self.code.len();
         let mut sol = Sol { fx: vec![0u8; n], fb_cyclic: vec![false; n], fb_done: false };
         let has_fx = self.kinds.iter().any(|k| matches!(k, Kind::Fx | Kind::Fxj));
@@ -219,7 +246,7 @@ impl World {
             for _round in 0..600 {
                 let mut changed = false;
                 for i in 0..n {
-                    if !matches!(self.kinds[i], Kind::Fx | Kind::Fxj) {
+                    if !matches!(self.kinds[i], Kind::Fx | Kind::Fxj) || !reach[i] {
                         continue;
                     }
                     let mut r = Rf::new(self, &sol);
@@ -284,7 +311,7 @@ impl World {
     /// Reference for `accumulated::<Acc>(node n)`: pre-order, first visit only; a function's own
     /// values first (in push order), then its callees in first-call order.
     pub fn accumulated(&self, n: u8) -> Expect {
-        let sol = match self.solve() {
+        let sol = match self.solve_from(&[n]) {
             Ok(s) => s,
             Err(_) => return Expect::Undefined,
         };
